@@ -530,7 +530,7 @@ func checkIn(check string) func(c progCase) (fw.Outcome, *fw.Violation) {
 			used := false
 			for _, p := range c.Progs {
 				for _, s := range p {
-					if strings.Contains(s.SQL, t.ref()) || (t.dmlTarget() != "" && strings.Contains(s.SQL, t.dmlTarget())) {
+					if strings.Contains(s.SQL, t.ref()) || (t.dmlTarget() != "" && strings.Contains(s.SQL, t.dmlTarget())) || (t.Format != "" && strings.Contains(s.SQL, t.fileName())) {
 						used = true
 					}
 				}
@@ -724,6 +724,11 @@ func TestC13Cancel(t *testing.T) {
 func TestC13Recover(t *testing.T) {
 	runCheck(t, "recover", 90, 1800, genRecover,
 		"one session that goes on after errors (interactive shell, library): 1-3 statements failing in OFFSET / LIMIT / WHERE / ORDER BY evaluation, in a WITH clause, a subquery or set operation, on unknown objects, in DML, in a user function, then 1-3 statements of which the first has a per-row subquery evaluated by several workers")
+}
+
+func TestC13Lazy(t *testing.T) {
+	runCheck(t, "lazy", 80, 1600, genLazy,
+		"sources that are loaded and cached on first reference - remote tables (bare http:// URL, URL::(), CSV(',', URL::()), JSON('', URL::()), text/csv, application/json and text/plain bodies served by a loopback net/http/httptest server of the worker process), DATA:: strings, CSV_INLINE/JSON_INLINE, STDIN, a file nobody has read yet (all six formats, also as file: URL and INLINE::()) - are referenced for the FIRST time inside a subquery that several goroutines evaluate per record of a big outer table (fresh session and transaction per case: cold caches): WHERE IN / EXISTS / scalar subquery in the select list / the same or two different sources in two subqueries of one statement / the body of a user function / a join condition / an aggregate argument / ORDER BY / UPDATE..WHERE; 5% a remote table answering 404 (every worker fails while loading); 35% read the now cached source once more")
 }
 
 func TestC13Sessions(t *testing.T) {
